@@ -1,6 +1,7 @@
 # Various node visitors to clean up nested function calls of various types.
 import ast
 import copy
+import re
 from typing import List, Tuple, Union, cast
 
 from func_adl.ast.call_stack import argument_stack, stack_frame
@@ -29,6 +30,21 @@ def arg_name():
     n = "arg_{0}".format(argument_var_counter)
     argument_var_counter += 1
     return n
+
+
+def reserve_arg_names(a: ast.AST):
+    """Make sure that `arg_name` does not hand out a name that is already used in `a`.
+
+    A query can already contain names like `arg_3` - for example because it was simplified
+    before, by another process - and a "unique" name that clashes with one of them would
+    capture it.
+    """
+    global argument_var_counter
+    for node in ast.walk(a):
+        name = node.id if isinstance(node, ast.Name) else node.arg if isinstance(node, ast.arg) else ""
+        m = re.fullmatch(r"arg_(\d+)", name)
+        if m is not None:
+            argument_var_counter = max(argument_var_counter, int(m.group(1)) + 1)
 
 
 def make_args_unique(a: ast.Lambda) -> ast.Lambda:
@@ -133,6 +149,17 @@ class simplify_chained_calls(FuncADLNodeTransformer):
 
     def __init__(self):
         self._arg_stack = argument_stack()
+        self._visit_depth = 0
+
+    def visit(self, node: ast.AST):
+        # On the way in, see what names the query already uses.
+        if self._visit_depth == 0:
+            reserve_arg_names(node)
+        self._visit_depth += 1
+        try:
+            return super().visit(node)
+        finally:
+            self._visit_depth -= 1
 
     def visit_Select_of_Select(self, parent: ast.Call, selection: ast.Lambda):
         r"""
